@@ -60,8 +60,12 @@ func batchScript(vc *VC, obls []*Obligation, models bool) string {
 }
 
 func runSolver(s Solver, file string, timeoutMs int, nQueries int) (string, error) {
+	return runSolverCtx(context.Background(), s, file, timeoutMs, nQueries)
+}
+
+func runSolverCtx(parent context.Context, s Solver, file string, timeoutMs int, nQueries int) (string, error) {
 	hard := time.Duration(timeoutMs*nQueries+10000) * time.Millisecond
-	ctx, cancel := context.WithTimeout(context.Background(), hard)
+	ctx, cancel := context.WithTimeout(parent, hard)
 	defer cancel()
 	cmd := exec.CommandContext(ctx, s.Bin, s.Args(timeoutMs, file)...)
 	var out bytes.Buffer
@@ -100,27 +104,80 @@ func Solve(vc *VC, opts SolveOpts) error {
 	}
 	dir := opts.WorkDir
 	base := filepath.Join(dir, sanitize(vc.Unit))
-	file := base + ".smt2"
-	if err := os.WriteFile(file, []byte(batchScript(vc, vc.Obls, false)), 0o644); err != nil {
-		return err
+	batchTimeout := opts.TimeoutMs
+	if batchTimeout > 3000 {
+		batchTimeout = 3000
 	}
-	t0 := time.Now()
-	out, err := runSolver(Solvers[0], file, opts.TimeoutMs, len(vc.Obls))
-	answers, errs := parseAnswers(out)
-	if len(errs) > 0 {
-		return fmt.Errorf("solver error in %s: %s", file, strings.Join(errs[:min(3, len(errs))], "; "))
+	const chunk = 8
+	type batchRes struct {
+		solver  string
+		lo      int
+		answers []string
+		errs    []string
+		dur     float64
 	}
-	per := time.Since(t0).Seconds() / float64(len(vc.Obls))
-	for i, o := range vc.Obls {
-		if i < len(answers) {
-			o.Status = answers[i]
-		} else {
-			o.Status = "unknown"
+	batchSolvers := []Solver{Solvers[0], Solvers[1]}
+	var jobs int
+	resC := make(chan batchRes, 2*(len(vc.Obls)/chunk+1))
+	sem0 := make(chan struct{}, 6)
+	for lo := 0; lo < len(vc.Obls); lo += chunk {
+		hi := lo + chunk
+		if hi > len(vc.Obls) {
+			hi = len(vc.Obls)
 		}
-		o.Solver = Solvers[0].Name
-		o.TimeS = per
+		file := fmt.Sprintf("%s.b%d.smt2", base, lo)
+		if err := os.WriteFile(file, []byte(batchScript(vc, vc.Obls[lo:hi], false)), 0o644); err != nil {
+			return err
+		}
+		for _, bs := range batchSolvers {
+			jobs++
+			go func(bs Solver, lo, n int, file string) {
+				sem0 <- struct{}{}
+				defer func() { <-sem0 }()
+				t1 := time.Now()
+				out, _ := runSolver(bs, file, batchTimeout, n)
+				a, e := parseAnswers(out)
+				resC <- batchRes{bs.Name, lo, a, e, time.Since(t1).Seconds()}
+			}(bs, lo, hi-lo, file)
+		}
 	}
-	_ = err
+	for _, o := range vc.Obls {
+		o.Status = "unknown"
+		o.Solver = ""
+	}
+	errCount := map[int][]string{}
+	for j := 0; j < jobs; j++ {
+		b := <-resC
+		if len(b.errs) > 0 {
+			errCount[b.lo] = append(errCount[b.lo], b.solver+": "+b.errs[0])
+			continue
+		}
+		for k, a := range b.answers {
+			i := b.lo + k
+			if i >= len(vc.Obls) || (a != "sat" && a != "unsat") {
+				continue
+			}
+			o := vc.Obls[i]
+			if (o.Status == "sat" || o.Status == "unsat") && o.Status != a {
+				return fmt.Errorf("solvers disagree on %s", o.Name)
+			}
+			if o.Status == "unknown" {
+				o.Status, o.Solver, o.TimeS = a, b.solver, b.dur/float64(len(b.answers))
+			} else if a == "unsat" {
+				o.Solver += "+" + b.solver
+			}
+		}
+	}
+	for lo, es := range errCount {
+		if len(es) == len(batchSolvers) {
+			return fmt.Errorf("solver error in %s.b%d.smt2: %s", base, lo, strings.Join(es, "; "))
+		}
+	}
+	for _, o := range vc.Obls {
+		if o.Solver == "" {
+			o.Solver = "-"
+		}
+	}
 	// retry everything that is not the expected answer individually, racing the other solvers
 	var wg sync.WaitGroup
 	sem := make(chan struct{}, 8)
@@ -132,7 +189,7 @@ func Solve(vc *VC, opts SolveOpts) error {
 			want = "sat"
 		}
 		need := o.Status != want
-		if opts.SecondOpin && !o.Cover && o.Status == "unsat" {
+		if opts.SecondOpin && !o.Cover && o.Status == "unsat" && !strings.Contains(o.Solver, "+") {
 			need = true
 		}
 		if !need {
@@ -167,6 +224,8 @@ func solveOne(vc *VC, o *Obligation, base string, opts SolveOpts) error {
 	}
 	script := batchScript(vc, []*Obligation{o}, true)
 	results := make(chan ans, len(Solvers))
+	ctx, cancel := context.WithCancel(context.Background())
+	defer cancel()
 	for si, s := range Solvers {
 		go func(si int, s Solver) {
 			file := fmt.Sprintf("%s.%d.smt2", base, si)
@@ -176,7 +235,7 @@ func solveOne(vc *VC, o *Obligation, base string, opts SolveOpts) error {
 			}
 			os.WriteFile(file, []byte(sc), 0o644)
 			t0 := time.Now()
-			out, _ := runSolver(s, file, opts.TimeoutMs*3, 1)
+			out, _ := runSolverCtx(ctx, s, file, opts.TimeoutMs*3, 1)
 			a, errs := parseAnswers(out)
 			r := ans{solver: s.Name, status: "unknown", t: time.Since(t0).Seconds(), errs: errs}
 			if len(a) > 0 {
@@ -191,9 +250,21 @@ func solveOne(vc *VC, o *Obligation, base string, opts SolveOpts) error {
 		}(si, s)
 	}
 	var got []ans
+	nUnsat := 0
 	for range Solvers {
-		got = append(got, <-results)
+		r := <-results
+		got = append(got, r)
+		if r.status == "sat" {
+			break
+		}
+		if r.status == "unsat" {
+			nUnsat++
+			if !opts.SecondOpin || nUnsat >= 2 {
+				break
+			}
+		}
 	}
+	cancel()
 	// definite answers win; disagreement between definite answers is an engine error
 	var sat, unsat *ans
 	for i := range got {
